@@ -16,6 +16,7 @@ import (
 	"math/big"
 	"path"
 	"regexp"
+	"sort"
 	"strings"
 	"unicode/utf8"
 
@@ -228,6 +229,14 @@ func (m *Model) valid(sn any, v any, p Pos) Verdict {
 		np.ParentNoMethods = false
 		np.RefBranch = p.Kind == "branch"
 		np.DefStack = append(append([]string{}, p.DefStack...), file+"|"+ref[strings.IndexByte(ref+"#", '#'):])
+		if m.dev("SAME_NAME_ANYOF_DIFFERENCE_IGNORED") && strings.HasPrefix(ref, "#/") {
+			// as built: two definitions that normalise to one Go name are compared with every anyOf list ignored; the one generated
+			// later (definitions are generated in name order) is folded into the earlier one when nothing else differs
+			if o := m.foldedInto(ref, file); o != nil {
+				m.fire("SAME_NAME_ANYOF_DIFFERENCE_IGNORED")
+				t = o
+			}
+		}
 		if ts, ok := t.(map[string]any); ok && m.dev("REF_UNTYPED_DEF_IS_ANY") && strings.Contains(ref, "#/") {
 			// as built: a $ref to a definition without type and without properties becomes interface{}
 			if _, hasType := ts["type"]; !hasType {
@@ -349,7 +358,21 @@ func (m *Model) valid(sn any, v any, p Pos) Verdict {
 	case "array":
 		join(m.array(s, v.([]any), p))
 	case "object":
-		join(m.object(s, v.(map[string]any), p))
+		if m.dev("COMPOSITE_SIBLING_KEYWORDS_DROPPED") && hasComposite(s) && (s["properties"] != nil || s["required"] != nil) {
+			// as built: an object schema that carries allOf / anyOf is generated from the composite alone; its own properties,
+			// required list and additionalProperties are never looked at
+			own := map[string]any{}
+			for k, e := range s {
+				if k == "properties" || k == "required" || k == "additionalProperties" {
+					own[k] = e
+				}
+			}
+			if m.object(own, v.(map[string]any), p) != Accept {
+				m.fire("COMPOSITE_SIBLING_KEYWORDS_DROPPED")
+			}
+		} else {
+			join(m.object(s, v.(map[string]any), p))
+		}
 	}
 	if res == Reject {
 		return res
@@ -1169,6 +1192,67 @@ func (m *Model) firstWins(branches []any, file string) []any {
 		out[i] = cp
 	}
 	return out
+}
+
+// foldedInto: the definition an as-built generator uses instead of the one ref names (see SAME_NAME_ANYOF_DIFFERENCE_IGNORED).
+func (m *Model) foldedInto(ref, file string) any {
+	i := strings.LastIndexByte(ref, '/')
+	if i < 0 {
+		return nil
+	}
+	container, name := ref[2:i], ref[i+1:]
+	root := m.Files[file]
+	defs, _ := root[container].(map[string]any)
+	mine, ok := defs[name]
+	if !ok {
+		return nil
+	}
+	norm := func(s string) string {
+		var b strings.Builder
+		for _, r := range strings.ToLower(s) {
+			if (r >= 'a' && r <= 'z') || (r >= '0' && r <= '9') {
+				b.WriteRune(r)
+			}
+		}
+		return b.String()
+	}
+	var strip func(v any) any
+	strip = func(v any) any {
+		switch x := v.(type) {
+		case map[string]any:
+			o := map[string]any{}
+			for k, e := range x {
+				if k != "anyOf" {
+					o[k] = strip(e)
+				}
+			}
+			return o
+		case []any:
+			o := make([]any, len(x))
+			for i, e := range x {
+				o[i] = strip(e)
+			}
+			return o
+		}
+		return v
+	}
+	var names []string
+	for n := range defs {
+		names = append(names, n)
+	}
+	sort.Strings(names)
+	for _, n := range names {
+		if n >= name {
+			break
+		}
+		if norm(n) != norm(name) {
+			continue
+		}
+		if jsonv.Text(strip(defs[n])) == jsonv.Text(strip(mine)) && jsonv.Text(defs[n]) != jsonv.Text(mine) {
+			return defs[n]
+		}
+	}
+	return nil
 }
 
 func (m *Model) allNullFirstObjects(list []any, file string) bool {
